@@ -70,7 +70,10 @@ func (rw *RollingWindow) Reduce(fn func(b *Bucket)) {
 }
 
 func (rw *RollingWindow) updateOffset() {
-	span := rw.span()
+	// 只读一次时钟：若算完跨度后再读一次，两次读数之间恰好跨过桶边界时，
+	// lastTime 会比 offset 多前进一个桶，窗口内已有的数据就会晚一个桶才过期。
+	now := timex.Now()
+	span := rw.spanAt(now)
 	if span <= 0 {
 		return
 	}
@@ -82,13 +85,17 @@ func (rw *RollingWindow) updateOffset() {
 	}
 
 	rw.offset = (offset + span) % rw.size
-	now := timex.Now()
 	//对齐间隔时间边界
 	rw.lastTime = now - (now-rw.lastTime)%rw.interval
 }
 
 func (rw *RollingWindow) span() int {
-	offset := int(timex.Since(rw.lastTime) / rw.interval)
+	return rw.spanAt(timex.Now())
+}
+
+// 时刻 now 距 lastTime 跨过的桶数，不超过窗口大小。
+func (rw *RollingWindow) spanAt(now time.Duration) int {
+	offset := int((now - rw.lastTime) / rw.interval)
 	if 0 <= offset && offset < rw.size {
 		return offset
 	}
